@@ -69,8 +69,30 @@ isa = z3.Function("isa", z3.IntSort(), z3.IntSort(), z3.BoolSort())
 _fresh_counter = itertools.count()
 
 
+_param_names = None      # while a contract's symbolic parameters are built: {name: occurrences} - their leaves get STABLE names
+
+
 def fresh(name, sort):
+    if _param_names is not None:
+        # a counter-model is replayed in a fresh context: the leaves of a parameter must be the same constants there
+        k = _param_names.get(name, 0)
+        _param_names[name] = k + 1
+        return z3.Const("pp_%s%s" % (name, "#%d" % k if k else ""), sort)
     return z3.Const("%s!%d" % (name, next(_fresh_counter)), sort)
+
+
+class stable_param_names:
+    def __init__(self):
+        self.names = {}
+
+    def __enter__(self):
+        global _param_names
+        self.saved = _param_names
+        _param_names = self.names
+
+    def __exit__(self, *a):
+        global _param_names
+        _param_names = self.saved
 
 
 def fresh_val(name="v"):
